@@ -48,7 +48,9 @@ def _worker(payload):
                 script = []
                 for s in order:
                     script += [("submit", s), ("drain",)]
-                lines = await D.run_script(st, backend, uni, script + [("query", fs) for fs in reqs])
+                # (a request given as ("raw", concrete filters, abstract filters) is sent in exactly that spelling)
+                lines = await D.run_script(st, backend, uni, script + [("rawquery", fs[1], fs[2]) if isinstance(fs, tuple) else ("query", fs)
+                                                                       for fs in reqs])
             finally:
                 await D.close_storage(st)
         store = set()
@@ -126,11 +128,24 @@ def run(prop, tier, seed, **kw):
             parts = [dict(f, tags=dict(f["tags"], **{fld: [v]})) for v in f["tags"][fld]]
         unions.append((f, fld, parts))
         extra += parts
+    # multi-value ids / authors lists spelled with upper-case hex digits (the same 32-byte values): the answer must still be
+    # the union of the answers to the single values, and must not depend on unrelated events
+    spelled = []
+    for fld, lst in (("authors", ["C", "D"]), ("authors", ["D", "C"]), ("authors", ["A", "C", "D"]), ("authors", ["A", "B"]), ("authors", ["B", "C"]),
+                     ("ids", ["q1", "q7"]), ("ids", ["q7", "q8"]), ("ids", ["s1", "s2", "q2"]), ("ids", ["q3", "q6", "q9"])):
+        for more in ({}, {"kinds": [1]}):
+            f = dict({fld: list(lst)}, **more)
+            parts = [dict(f, **{fld: [v]}) for v in lst]
+            extra += parts
+            for mask in range(1, 2 ** len(lst)):
+                conc = uni.conc_filter(f)
+                conc[fld] = [v.upper() if mask >> k & 1 else v for k, v in enumerate(conc[fld])]
+                spelled.append((f, fld, parts, conc))
     allf = {}
     for f in filters + [g for _, g in pairs] + [f for f, _ in pairs] + extra:
         allf.setdefault(repr(sorted(f.items(), key=str)), f)
     keys = list(allf)
-    reqs = [[allf[k]] for k in keys]
+    reqs = [[allf[k]] for k in keys] + [("raw", [conc], [f]) for f, fld, parts, conc in spelled]
     index = {k: n for n, k in enumerate(keys)}
     splits = []
     for _ in range({"quick": 6, "thorough": 30}[tier]):
@@ -155,6 +170,12 @@ def run(prop, tier, seed, **kw):
         for f, fld, parts in unions:
             lines.append({"a": "Union", "f": abs_filter_tla(f), "fld": fld, "rf": ans_b[index[fk(f)]],
                           "parts": [{"g": abs_filter_tla(p), "r": ans_b[index[fk(p)]]} for p in parts], "_f": f})
+        for n, (f, fld, parts, conc) in enumerate(spelled):
+            pos = len(keys) + n
+            lines.append({"a": "Unaffected", "f": abs_filter_tla(f), "sa": set(store_a), "sb": set(store_b), "ra": ans_a[pos], "rb": ans_b[pos],
+                          "_f": f, "_sent_as": conc})
+            lines.append({"a": "Union", "f": abs_filter_tla(f), "fld": fld, "rf": ans_b[pos],
+                          "parts": [{"g": abs_filter_tla(p_), "r": ans_b[index[fk(p_)]]} for p_ in parts], "_f": f, "_sent_as": conc})
         for b in range(0, len(lines), 400):
             traces.append(lines[b:b + 400])
             meta.append((backend, sorted(store_a), sorted(store_b)))
